@@ -509,8 +509,6 @@ impl HttpsSession {
             incr!(rustls_ciphersuite_str(cipher));
         };
 
-        gauge_add!(names::protocol::TLS_HANDSHAKE, -1);
-
         let session_ulid = rusty_ulid::Ulid::generate();
         let front_stream = FrontRustls {
             stream: handshake.stream,
@@ -698,6 +696,9 @@ impl HttpsSession {
             "mux context and connection must share the handshake-derived session ulid"
         );
 
+        // leave the handshake gauge only once nothing can fail anymore: a refused
+        // upgrade stays marked `Handshake` and `close()` restores the gauge itself
+        gauge_add!(names::protocol::TLS_HANDSHAKE, -1);
         gauge_add!(names::protocol::HTTPS, 1);
         Some(HttpsStateMachine::Mux(Mux {
             configured_frontend_timeout: self.configured_frontend_timeout,
